@@ -35,6 +35,13 @@ def classify(ctx, comp, seq, ix, cache):
         s = cache[v]
         if s['kind'] in KEY_PRESERVING:
             continue
+        if s['kind'] == 'debug-unquote':
+            # the quote-strip idiom in a helper: adequate exactly where the inline form is — between double quotes
+            left = seq[ix - 1] if ix > 0 else None
+            if left and left[0] in ('lit', 'lit*') and left[1].endswith('"'):
+                continue        # the quote opens right before the key; the escaped text cannot close it
+            unknown.append(f'{v}[debug-unquote outside quotes]')
+            continue
         if s['kind'] == 'ident-wrap':
             wraps.append(v)
             continue
